@@ -30,7 +30,8 @@ def main():
     if os.path.exists(notes):
         shutil.copy(notes, os.path.join(out, "NOTES.md"))
     meta = {"property": pid, "name": name, "ran": []}
-    sh("git checkout -- . && git clean -fdq -- kernel valget", cwd=wt)
+    # the scratch worktree follows /repo's HEAD (fixes committed since it was created)
+    sh("git checkout -- . && git clean -fdq -- kernel valget && git checkout -q --detach $(git -C /repo rev-parse HEAD)", cwd=wt)
     rc0, o0 = sh(["bash", os.path.join(out, "demo", "run.sh"), wt], timeout=1800)
     meta["demo_without_change"] = {"exit": rc0, "tail": o0[-300:]}
     meta["ran"].append("demo/run.sh on the clean worktree")
